@@ -520,7 +520,7 @@ def argument_builder(ctx: Ctx) -> FuncUnit:
         for n in env.own_nodes():
             if isinstance(n, ast.Call):
                 for t in env.resolve_call(n):
-                    if t[0] == 'func' and t[1].cls is mgr_cls and t[1] is not u:
+                    if t[0] == 'func' and (t[1].cls is mgr_cls or t[1].cls is None) and t[1] is not u:
                         res.append(t[1])
         return res
     cands = []
@@ -743,17 +743,9 @@ def rule_kwargs_hidden_verdict(ctx: Ctx, out: Collector) -> None:
     that was already released crashes on a verdict hidden by the next re-iteration."""
     mgr_cls = ctx.manager_class()
     case_cls = next((ci for ci in ctx.p.classes_by_name.get('CaseResult', []) if ci.module.name.startswith('ml_pipeline_engine')), None)
-    target = None
-    for m in mgr_cls.methods.values():
-        if not m.is_async and len(m.params()) == 2 and any(isinstance(n, ast.Attribute) and n.attr == 'kwarg_name' for n in ast.walk(m.node)) \
-                and any(isinstance(n, ast.Return) and n.value is not None for n in ast.walk(m.node)):
-            target = m
-    if target is None or case_cls is None:
-        raise AnalysisError('argument builder not found (RD-3 anchor vanished)')
-    # prefer the outermost builder (the one that also serves the input node)
-    for m in mgr_cls.methods.values():
-        if not m.is_async and len(m.params()) == 2 and any(isinstance(n, ast.Attribute) and n.attr == 'input_kwargs' for n in ast.walk(m.node)):
-            target = m
+    target = argument_builder(ctx)
+    if case_cls is None:
+        raise AnalysisError('CaseResult class not found (RD-3 anchor vanished)')
     m = target
 
     def run(oracle: Oracle):
@@ -778,3 +770,59 @@ def rule_kwargs_hidden_verdict(ctx: Ctx, out: Collector) -> None:
                 f'with hidden entries included but the verdict is not, so a consumer outside the subgraph that was released just before the '
                 f're-iteration fails with the engine\'s own AttributeError (None has no node_id) instead of being invoked',
                 props={'C03', 'C09', 'C11'})
+
+
+def rule_order_skips_taken_nodes(ctx: Ctx, out: Collector) -> None:
+    """ON-6: the node order of a non-recurrent scope leaves out every node another scope has already *taken* (marked as
+    processed), whether or not its result exists yet; a recurrent scope orders all its nodes.  Scheduling a node that
+    is still in flight elsewhere creates a second requester, which republishes and re-saves what it reads (F16 / F17)."""
+    from .cc import launch_loops as _ll
+    seen = set()
+    n = 0
+    for fid, g in ctx.run_graphs().items():
+        for lp, region, wait in _ll(ctx, g):
+            it = lp.info['iter']
+            e, i = sym.resolve_value(ctx.p, it, lp.inst)
+            if not isinstance(e, ast.Call):
+                continue
+            units = [t[1] for t in FuncEnv.of(ctx.p, i.unit).resolve_call(e) if t[0] == 'func']
+            for unit in units:
+                if unit.fid in seen:
+                    continue
+                seen.add(unit.fid)
+                n += 1
+                table = {}
+                problems = []
+                for rec in (False, True):
+                    for state in ('untouched', 'taken, still running', 'taken, result published'):
+                        def run(oracle: Oracle, rec=rec, state=state):
+                            contents = {'node_results': {}, 'processed_nodes': {}}
+                            if state != 'untouched':
+                                contents['processed_nodes']['X'] = ('visible', None)
+                            if state == 'taken, result published':
+                                contents['node_results']['X'] = ('visible', 1)
+                            mgr, storage, adag = _abstract_world(ctx, contents, dag_nodes=('I', 'X', 'Y'), dest='Y')
+                            adag.attrs['is_recurrent'] = rec
+                            adag.attrs['nodes'] = {'I': {}, 'X': {}, 'Y': {}}
+                            adag.attrs['edges'] = {('I', 'X'): {}, ('X', 'Y'): {}}
+                            interp = Interp(ctx.p, oracle)
+                            return interp.call_unit(unit, [adag], {}, mgr, None)
+                        outs = enumerate_outcomes(run)
+                        vals = [o[1] if o[0] == 'value' else f'raises {o[1]}' for o in outs]
+                        has_x = sorted({('X' in v) if isinstance(v, (list, tuple, set)) else str(v) for v in vals}, key=str)
+                        key = f'{"recurrent" if rec else "plain"} scope, X {state}'
+                        table[key] = has_x
+                        expect = True if rec or state == 'untouched' else False
+                        if has_x != [expect]:
+                            problems.append(f'{key}: X scheduled = {has_x} (must be {expect})')
+                cons = f'{unit.module.name}::{unit.qualname}::a scope schedules exactly the nodes nobody has taken yet (all of them when it re-iterates)'
+                if not problems:
+                    out.ok('ON-6', cons, ctx.p.loc(unit, unit.node), 'taken nodes are left out of a plain scope, a recurrent scope orders all', table=table)
+                else:
+                    out.bad('ON-6', cons, ctx.p.loc(unit, unit.node),
+                            'the node order does not leave out exactly the nodes another scope has taken: ' + '; '.join(problems[:3])
+                            + ' - a node that is still executing elsewhere is scheduled again, the second requester republishes / saves its '
+                              'result a second time (a write-once store fails the run) or reads a result that is not there yet',
+                            table=table, props={'C04', 'C19', 'C03'})
+    if n == 0:
+        raise AnalysisError('no node-order function of a launch loop found (ON-6 anchor vanished)')
